@@ -114,7 +114,8 @@ class C05(framework.PropertyCheck):
             exps.append(want)
         for _k in range(r.randint(4, 9)):
             f2 = f'f2_{_k}'
-            kind = r.choice(['scoped', 'scoped', 'grouped', 'missing', 'get', 'alias', 'alias2', 'groups', 'groups', 'nest', 'nest', 'allscopes', 'setscope'])
+            kind = r.choice(['scoped', 'scoped', 'grouped', 'missing', 'get', 'alias', 'alias2', 'groups', 'groups', 'nest', 'nest', 'allscopes', 'setscope',
+                             'nestset', 'aliassig'])
             if kind == 'scoped':
                 sc = r.choice(SCOPES)
                 loc = [s[len(sc) + 1:] for s in local_signals(sc)]
@@ -199,6 +200,21 @@ class C05(framework.PropertyCheck):
                 o2, c2, _s2, _g2 = build(r.randint(1, 4 - d1) if d1 < 4 else 1, scope, group)
                 add(o1 + '(do ' + o2 + '1' + c2 + ' ' + CTX + ')' + c1, ('val', ctx(scope, group)), 'sortinner')
                 add(CTX, ('val', ctx('', '')), 'sortinner')
+            elif kind == 'nestset':
+                # the body itself moves the captured scope: when the construct finishes the scope is what it was before it started
+                opener = r.choice(['(in-scope "top.a" ', '(in-group "zz" ', '(in-group "top.x_" ', '(in-groups (list "top.a.y_") ', '(in-group "x" '])
+                inner = r.choice(['(set-scope top.ab)', '(unset-scope)', '(do (set-scope top.a.b) (unset-scope))', '(set-scope top)'])
+                add(f'(do {opener}{inner}) {CTX})', ('val', ctx('', '')), 'sortinner')
+                sc = r.choice(SCOPES)
+                add(f'(in-scope "{sc}" (do {opener}{inner}) {CTX}))', ('val', ctx(sc, '')), 'sortinner')
+                add(CTX, ('val', ctx('', '')), 'sortinner')
+            elif kind == 'aliassig':
+                # an alias may carry the name of an existing signal (patching one signal over another)
+                a, b = r.choice(signals), r.choice(signals)
+                if '<' in a or '<' in b:
+                    continue
+                add(f"(do (alias {a} '{b}) (list {a} {b} (reval {a} 0)))", ('val', ('L', True, (V(b), V(b), V(b)))))
+                add(f'(do (unalias {a}) (list {a} {b}))', ('val', ('L', True, (V(a), V(b)))))
             elif kind == 'allscopes':
                 add('(list (all-scopes (list CS)) CS)', ('val', ('L', True, (('L', False, tuple(('L', True, (('S', s),)) for s in SCOPES)), ('S', '')))))
                 add(CTX, ('val', ctx('', '')), 'sortinner')
